@@ -1567,12 +1567,20 @@ int read_task_ustack(struct uftrace_data *handle, struct uftrace_task_reader *ta
 	}
 
 	if (task->ustack.more) {
+		int ret = 0;
+
 		if (task->ustack.type == UFTRACE_ENTRY)
-			read_task_args(task, &task->ustack, false);
+			ret = read_task_args(task, &task->ustack, false);
 		else if (task->ustack.type == UFTRACE_EXIT)
-			read_task_args(task, &task->ustack, true);
+			ret = read_task_args(task, &task->ustack, true);
 		else if (task->ustack.type == UFTRACE_EVENT)
-			read_task_event(task, &task->ustack);
+			ret = read_task_event(task, &task->ustack);
+
+		/* the payload is cut short: the task's data ends before this record */
+		if (ret < 0 && feof(task->fp)) {
+			task->done = true;
+			return -1;
+		}
 
 		if (unlikely(task->args.args == NULL || task->args.len == 0)) {
 			struct uftrace_symbol *sym;
